@@ -1,11 +1,15 @@
 #!/bin/sh
-# all behaviour-preserving edits of seeded/harmless/ applied together to a scratch copy of
-# /repo: every check must stay green (no false alarm).  /repo itself is not touched.
-s=/dev/shm/harmless_$$
-rm -rf $s; mkdir -p $s; rsync -a --exclude .git /repo/ $s/
-for d in /verif/seeded/harmless/H*/; do (cd $s && patch -s -p1 < $d/patch.diff) || echo "PATCH FAILED $d"; done
-trap 'rm -rf '$s EXIT
+# behaviour-preserving edits of seeded/harmless/ applied to scratch copies of /repo in two
+# groups (H1-H10 structural edits, H11-H20 numpy-idiom edits; two of them touch the same
+# function): every check must stay green (no alarm).  /repo itself is not touched.
 cd /verif
-for p in C01 C02 C03 C04 C05 C06 C07 C08 C09 C10 C11 C12 C13 C14 C15 C16 C17 C18 C19 C20; do
-  PVC_REPO_SRC=$s/src ./check $p 2>&1 | grep -E "^(VIOLATION|UNDECIDED|CHECKER-CRASH|C[0-9][0-9]:)" | cut -c1-260
+for grp in "1 2 3 4 5 6 7 8 9 10" "11 12 13 14 15 16 17 18 19 20"; do
+  s=/dev/shm/harmless_$$
+  rm -rf $s; mkdir -p $s; rsync -a --exclude .git /repo/ $s/
+  for k in $grp; do (cd $s && patch -s -p1 < /verif/seeded/harmless/H$k/patch.diff) || echo "PATCH FAILED H$k"; done
+  echo "##### harmless group: H$(echo $grp | sed 's/ / H/g')"
+  for p in C01 C02 C03 C04 C05 C06 C07 C08 C09 C10 C11 C12 C13 C14 C15 C16 C17 C18 C19 C20; do
+    PVC_REPO_SRC=$s/src ./check $p 2>&1 | grep -E "^(VIOLATION|UNDECIDED|CHECKER-CRASH|C[0-9][0-9]:)" | cut -c1-260
+  done
+  rm -rf $s
 done
